@@ -1,17 +1,1111 @@
 package main
 
 import (
+	"context"
+	"encoding/binary"
+	"errors"
+	"fmt"
+	"net"
+	"net/netip"
+	"os"
+	"runtime"
+	"strings"
+	"sync"
+	"time"
+
 	"ssvharness/internal/common"
+
+	"github.com/database64128/shadowsocks-go/conn"
+	"github.com/database64128/shadowsocks-go/jsoncfg"
+	"github.com/database64128/shadowsocks-go/service"
+	"github.com/database64128/shadowsocks-go/ss2022"
+	"github.com/database64128/shadowsocks-go/zerocopy"
+	"go.uber.org/zap"
+	"go.uber.org/zap/zapcore"
+	"go.uber.org/zap/zaptest/observer"
 )
 
+// ---------- case ----------
+
+type RelayOp struct {
+	Op   string `json:"op"`             // send | reply | garbage | move | burst
+	C    int    `json:"c,omitempty"`    // client (send, garbage, move)
+	T    int    `json:"t,omitempty"`    // target (send, reply)
+	Dom  bool   `json:"dom,omitempty"`  // send: address the target by name
+	J    int    `json:"j,omitempty"`    // reply: to the j-th relay session seen so far (mod count)
+	G    int    `json:"g,omitempty"`    // garbage kind
+	Fresh bool  `json:"fresh,omitempty"` // garbage from a socket never used before
+}
+
 type RelayCase struct {
-	Kind string `json:"kind"`
+	Kind    string    `json:"kind"`   // "udprelay"
+	Server  string    `json:"server"` // none | socks5 | ss2022 | direct
+	Client  string    `json:"client"` // direct | none
+	Batch   string    `json:"batch"`  // no | sendmmsg
+	Clients int       `json:"clients"`
+	Targets int       `json:"targets"`
+	TunnelDom bool    `json:"tunnel_dom,omitempty"` // direct server: tunnelRemoteAddress is a domain name
+	Ops     []RelayOp `json:"ops"`
+	Flood   int       `json:"flood,omitempty"` // concurrent phase: datagrams per client (0 = none)
+	Seed    uint64    `json:"seed"`
+}
+
+var serverProtos = []string{"none", "socks5", "ss2022", "direct"}
+var clientProtos = []string{"direct", "none"}
+
+func genRelayCase(r *common.Rng, idx int) RelayCase {
+	c := RelayCase{Kind: "udprelay", Seed: r.U64()}
+	c.Server = serverProtos[idx%4]
+	c.Batch = []string{"no", "sendmmsg"}[(idx/4)%2]
+	c.Client = clientProtos[0]
+	if (idx/8)%3 == 2 {
+		c.Client = "none"
+	}
+	c.Clients = r.Range(2, 4)
+	c.Targets = r.Range(2, 3)
+	c.TunnelDom = r.Bool()
+	n := r.Range(8, 30)
+	sends := 0
+	for i := 0; i < n; i++ {
+		x := r.Intn(100)
+		switch {
+		case x < 45 || sends == 0:
+			c.Ops = append(c.Ops, RelayOp{Op: "send", C: r.Intn(c.Clients), T: r.Intn(c.Targets), Dom: r.Chance(1, 2)})
+			sends++
+		case x < 70:
+			c.Ops = append(c.Ops, RelayOp{Op: "reply", T: r.Intn(c.Targets), J: r.Intn(8)})
+		case x < 85:
+			c.Ops = append(c.Ops, RelayOp{Op: "garbage", C: r.Intn(c.Clients), G: r.Intn(6), Fresh: r.Chance(1, 3)})
+		case x < 95:
+			c.Ops = append(c.Ops, RelayOp{Op: "move", C: r.Intn(c.Clients)})
+		default:
+			c.Ops = append(c.Ops, RelayOp{Op: "burst", C: r.Intn(c.Clients)})
+		}
+	}
+	if r.Chance(1, 2) {
+		c.Flood = r.Range(20, 120)
+	}
+	return c
+}
+
+func relaySig(c RelayCase) string {
+	var sb strings.Builder
+	fmt.Fprintf(&sb, "%s>%s/%s c%d t%d f%d %v", c.Server, c.Client, c.Batch, c.Clients, c.Targets, c.Flood, c.TunnelDom)
+	for _, o := range c.Ops {
+		fmt.Fprintf(&sb, " %s%d.%d.%v.%d.%d.%v", o.Op[:1], o.C, o.T, o.Dom, o.J, o.G, o.Fresh)
+	}
+	return sb.String()
+}
+
+// ---------- sockets ----------
+
+type dgram struct {
+	sock int // index of the receiving socket in its group
+	from netip.AddrPort
+	data []byte
+}
+
+type sockGroup struct {
+	mu    sync.Mutex
+	socks []*net.UDPConn
+	ch    chan dgram
+	wg    sync.WaitGroup
+}
+
+func newSockGroup() *sockGroup { return &sockGroup{ch: make(chan dgram, 65536)} }
+
+func (g *sockGroup) add(c *net.UDPConn) int {
+	g.mu.Lock()
+	idx := len(g.socks)
+	g.socks = append(g.socks, c)
+	g.mu.Unlock()
+	g.wg.Go(func() {
+		buf := make([]byte, 4096)
+		for {
+			n, from, err := c.ReadFromUDPAddrPort(buf)
+			if err != nil {
+				return
+			}
+			d := make([]byte, n)
+			copy(d, buf[:n])
+			g.ch <- dgram{idx, netip.AddrPortFrom(from.Addr().Unmap(), from.Port()), d}
+		}
+	})
+	return idx
+}
+
+func (g *sockGroup) get(i int) *net.UDPConn {
+	g.mu.Lock()
+	defer g.mu.Unlock()
+	return g.socks[i]
+}
+
+func (g *sockGroup) close() {
+	g.mu.Lock()
+	for _, c := range g.socks {
+		c.Close()
+	}
+	g.mu.Unlock()
+	g.wg.Wait()
+}
+
+func listenLoop(ip string, port int) (*net.UDPConn, error) {
+	return net.ListenUDP("udp4", &net.UDPAddr{IP: net.ParseIP(ip), Port: port})
+}
+
+// ---------- wire formats spoken by the harness (written from the protocol documents, not from the repo) ----------
+
+type tAddr struct {
+	ip   netip.Addr // valid = IP target
+	name string
+	port uint16
+}
+
+func (a tAddr) String() string {
+	if a.ip.IsValid() {
+		return netip.AddrPortFrom(a.ip, a.port).String()
+	}
+	return fmt.Sprintf("%s:%d", a.name, a.port)
+}
+
+func appendSocksAddr(b []byte, a tAddr) []byte {
+	if a.ip.IsValid() {
+		b = append(b, 1)
+		ip4 := a.ip.As4()
+		b = append(b, ip4[:]...)
+	} else {
+		b = append(b, 3, byte(len(a.name)))
+		b = append(b, a.name...)
+	}
+	return binary.BigEndian.AppendUint16(b, a.port)
+}
+
+func parseSocksAddr(b []byte) (tAddr, int, error) {
+	if len(b) < 1 {
+		return tAddr{}, 0, errors.New("empty")
+	}
+	switch b[0] {
+	case 1:
+		if len(b) < 7 {
+			return tAddr{}, 0, errors.New("short v4")
+		}
+		return tAddr{ip: netip.AddrFrom4([4]byte(b[1:5])), port: binary.BigEndian.Uint16(b[5:7])}, 7, nil
+	case 4:
+		if len(b) < 19 {
+			return tAddr{}, 0, errors.New("short v6")
+		}
+		return tAddr{ip: netip.AddrFrom16([16]byte(b[1:17])).Unmap(), port: binary.BigEndian.Uint16(b[17:19])}, 19, nil
+	case 3:
+		if len(b) < 2 || len(b) < 2+int(b[1])+2 {
+			return tAddr{}, 0, errors.New("short domain")
+		}
+		n := int(b[1])
+		return tAddr{name: string(b[2 : 2+n]), port: binary.BigEndian.Uint16(b[2+n : 4+n])}, 4 + n, nil
+	}
+	return tAddr{}, 0, fmt.Errorf("atyp %d", b[0])
+}
+
+func payloadBytes(id int, r *common.Rng) []byte {
+	b := binary.BigEndian.AppendUint64(nil, uint64(id))
+	return append(b, r.Bytes(8+r.Intn(24))...)
+}
+
+func payloadID(b []byte) int {
+	if len(b) < 8 {
+		return -1
+	}
+	return int(binary.BigEndian.Uint64(b))
+}
+
+// ---------- a relay started through service.Config -> Manager ----------
+
+type relayProc struct {
+	cancel context.CancelFunc
+	done   chan struct{}
+	addr   netip.AddrPort
+	logs   *observer.ObservedLogs
+}
+
+var testPSK = []byte("0123456789abcdef")
+
+func startRelay(c RelayCase, tunnel conn.Addr, upstream netip.AddrPort) (*relayProc, error) {
+	sc := service.ServerConfig{
+		Name: "s",
+		MTU:  1500,
+		UDPListeners: []service.UDPListenerConfig{{
+			ListenerConfig: service.ListenerConfig{Network: "udp4", Address: "127.0.0.1:0"},
+			UDPPerfConfig:  service.UDPPerfConfig{BatchMode: c.Batch},
+			NATTimeout:     jsoncfg.Duration(5 * time.Minute),
+		}},
+	}
+	switch c.Server {
+	case "none", "socks5":
+		sc.Protocol = c.Server
+	case "ss2022":
+		sc.Protocol = "2022-blake3-aes-128-gcm"
+		sc.PSK = testPSK
+	case "direct":
+		sc.Protocol = "direct"
+		sc.TunnelRemoteAddress = tunnel
+	default:
+		return nil, fmt.Errorf("server protocol %q", c.Server)
+	}
+	cc := service.ClientConfig{Name: "c", Protocol: "direct", Network: "ip4", EnableUDP: true, MTU: 1500}
+	switch c.Client {
+	case "direct":
+	case "none":
+		cc.Protocol = "none"
+		cc.UDPAddress = conn.AddrFromIPPort(upstream)
+	default:
+		return nil, fmt.Errorf("client protocol %q", c.Client)
+	}
+	cfg := service.Config{Servers: []service.ServerConfig{sc}, Clients: []service.ClientConfig{cc}}
+	core, logs := observer.New(zapcore.InfoLevel)
+	mgr, err := cfg.Manager(zap.New(core))
+	if err != nil {
+		return nil, fmt.Errorf("manager: %w", err)
+	}
+	ctx, cancel := context.WithCancel(context.Background())
+	p := &relayProc{cancel: cancel, done: make(chan struct{}), logs: logs}
+	go func() {
+		mgr.Run(ctx)
+		mgr.Close()
+		close(p.done)
+	}()
+	deadline := time.Now().Add(10 * time.Second)
+	for {
+		for _, e := range logs.All() {
+			switch {
+			case strings.HasPrefix(e.Message, "Started UDP") && strings.HasSuffix(e.Message, "relay service listener"):
+				if v, ok := e.ContextMap()["listenAddress"].(string); ok {
+					ap, err := netip.ParseAddrPort(v)
+					if err != nil {
+						p.stop()
+						return nil, err
+					}
+					p.addr = ap
+					return p, nil
+				}
+			case e.Message == "Failed to start service":
+				p.stop()
+				return nil, fmt.Errorf("service failed to start: %v", e.ContextMap())
+			}
+		}
+		if time.Now().After(deadline) {
+			p.stop()
+			return nil, errors.New("relay did not start in 10 s")
+		}
+		time.Sleep(time.Millisecond)
+	}
+}
+
+func (p *relayProc) stop() bool {
+	p.cancel()
+	select {
+	case <-p.done:
+		return true
+	case <-time.After(8 * time.Second):
+		return false
+	}
+}
+
+// ---------- harness clients ----------
+
+type hClient struct {
+	sock int // current socket (index into the client group = the model's Addr)
+	// ss2022
+	packer   zerocopy.ClientPacker
+	unpacker zerocopy.ClientUnpacker
+	front    int
+	lastPkt  []byte // last valid wire packet (for replay garbage)
+}
+
+type relayRun struct {
+	c        RelayCase
+	r        *common.Rng
+	dns      *scriptDNS
+	relay    *relayProc
+	clients  []*hClient
+	cg, tg   *sockGroup // client sockets, target (or upstream) sockets
+	tport    uint16
+	taddrs   []netip.Addr
+	upstream netip.AddrPort
+
+	script []string
+	impl   []string
+	fails  []common.OracleFailure
+
+	nextPl    int
+	plTarget  map[int]int    // payload id -> intended target
+	plClient  map[int]int    // payload id -> sending client
+	plSockets map[int][]int  // reply payload id -> sockets allowed to receive it
+	portSid   map[uint16]int // relay NAT port -> observed session number
+	sidPort   []uint16
+	sidClient []int // observed session -> owning client
+	sidSock   []int // observed session -> socket its latest accepted datagram came from
+	sockOwner map[int]int
+	keySid    map[int]bool
+	modelSids int
+	twoWay    map[int]bool
+	stopHung  bool
+}
+
+func tname(i int) string { return fmt.Sprintf("t%d.c11.test", i) }
+
+func (x *relayRun) fail(key, detail string) {
+	x.fails = append(x.fails, common.OracleFailure{Engine: "udprelay", Key: "udprelay:" + x.c.Server + ">" + x.c.Client + ":" + key, Case: x.c, Detail: detail})
+}
+
+func (x *relayRun) newClientSocket() (int, error) {
+	s, err := listenLoop("127.0.0.1", 0)
+	if err != nil {
+		return 0, err
+	}
+	return x.cg.add(s), nil
+}
+
+func (x *relayRun) setup() error {
+	x.cg, x.tg = newSockGroup(), newSockGroup()
+	x.plTarget, x.plClient, x.plSockets = map[int]int{}, map[int]int{}, map[int][]int{}
+	x.portSid, x.keySid, x.twoWay = map[uint16]int{}, map[int]bool{}, map[int]bool{}
+	x.sockOwner = map[int]int{}
+	x.nextPl = 1000
+	// targets: same port on 127.0.0.(20+i), so that a datagram sent to another session's resolved
+	// address still lands on a monitored socket
+	for attempt := 0; ; attempt++ {
+		first, err := listenLoop("127.0.0.20", 0)
+		if err != nil {
+			return err
+		}
+		port := first.LocalAddr().(*net.UDPAddr).Port
+		socks := []*net.UDPConn{first}
+		ok := true
+		for i := 1; i < x.c.Targets; i++ {
+			s, err := listenLoop(fmt.Sprintf("127.0.0.%d", 20+i), port)
+			if err != nil {
+				ok = false
+				break
+			}
+			socks = append(socks, s)
+		}
+		if ok {
+			x.tport = uint16(port)
+			for i, s := range socks {
+				x.tg.add(s)
+				a := netip.MustParseAddr(fmt.Sprintf("127.0.0.%d", 20+i))
+				x.taddrs = append(x.taddrs, a)
+				x.dns.set(tname(i), a)
+			}
+			break
+		}
+		for _, s := range socks {
+			s.Close()
+		}
+		if attempt > 20 {
+			return errors.New("could not bind the target sockets on one port")
+		}
+	}
+	if x.c.Client == "none" {
+		// the harness plays the upstream Shadowsocks-none proxy: one more monitored socket
+		u, err := listenLoop("127.0.0.1", 0)
+		if err != nil {
+			return err
+		}
+		x.tg.add(u)
+		x.upstream = u.LocalAddr().(*net.UDPAddr).AddrPort()
+	}
+	tunnel := conn.AddrFromIPAndPort(x.taddrs[0], x.tport)
+	if x.c.TunnelDom {
+		tunnel = conn.MustAddrFromDomainPort(tname(0), x.tport)
+	}
+	var err error
+	x.relay, err = startRelay(x.c, tunnel, x.upstream)
+	if err != nil {
+		return err
+	}
+	for i := 0; i < x.c.Clients; i++ {
+		s, err := x.newClientSocket()
+		if err != nil {
+			return err
+		}
+		hc := &hClient{sock: s}
+		x.sockOwner[s] = i
+		if x.c.Server == "ss2022" {
+			cc, err := ss2022.NewClientCipherConfig(testPSK, nil, true)
+			if err != nil {
+				return err
+			}
+			uc := ss2022.NewUDPClient("h", "ip4", conn.AddrFromIPPort(x.relay.addr), 1500, conn.DefaultUDPClientListenConfig, 0, cc, ss2022.PadPlainDNS)
+			info, sess, err := uc.NewSession(context.Background())
+			if err != nil {
+				return err
+			}
+			hc.packer, hc.unpacker, hc.front = sess.Packer, sess.Unpacker, info.PackerHeadroom.Front
+		}
+		x.clients = append(x.clients, hc)
+	}
+	return nil
+}
+
+func (x *relayRun) teardown() {
+	if x.relay != nil {
+		if !x.relay.stop() {
+			x.stopHung = true // session shutdown is C12's subject; only noted here
+		}
+	}
+	if x.cg != nil {
+		x.cg.close()
+	}
+	if x.tg != nil {
+		x.tg.close()
+	}
+}
+
+func (x *relayRun) targetAddr(t int, dom bool) tAddr {
+	if x.c.Server == "direct" {
+		t, dom = 0, x.c.TunnelDom
+	}
+	if dom {
+		return tAddr{name: tname(t), port: x.tport}
+	}
+	return tAddr{ip: x.taddrs[t], port: x.tport}
+}
+
+// encode builds the datagram a client of the server protocol sends for (target, payload).
+func (x *relayRun) encode(hc *hClient, ta tAddr, payload []byte) ([]byte, error) {
+	switch x.c.Server {
+	case "none":
+		return append(appendSocksAddr(nil, ta), payload...), nil
+	case "socks5":
+		return append(appendSocksAddr([]byte{0, 0, 0}, ta), payload...), nil
+	case "direct":
+		return payload, nil
+	case "ss2022":
+		var a conn.Addr
+		if ta.ip.IsValid() {
+			a = conn.AddrFromIPAndPort(ta.ip, ta.port)
+		} else {
+			a = conn.MustAddrFromDomainPort(ta.name, ta.port)
+		}
+		b := make([]byte, hc.front+len(payload)+64)
+		copy(b[hc.front:], payload)
+		_, ps, pl, err := hc.packer.PackInPlace(context.Background(), b, a, hc.front, len(payload))
+		if err != nil {
+			return nil, err
+		}
+		return b[ps : ps+pl], nil
+	}
+	return nil, errors.New("protocol")
+}
+
+// decode parses a datagram that arrived at a client socket: attached source ("-" if the protocol has none) + payload.
+func (x *relayRun) decode(hc *hClient, d dgram) (src string, payload []byte, err error) {
+	switch x.c.Server {
+	case "none":
+		a, n, err := parseSocksAddr(d.data)
+		if err != nil {
+			return "", nil, err
+		}
+		return a.String(), d.data[n:], nil
+	case "socks5":
+		if len(d.data) < 3 || d.data[2] != 0 {
+			return "", nil, errors.New("bad socks5 udp header")
+		}
+		a, n, err := parseSocksAddr(d.data[3:])
+		if err != nil {
+			return "", nil, err
+		}
+		return a.String(), d.data[3+n:], nil
+	case "direct":
+		return "-", d.data, nil
+	case "ss2022":
+		b := make([]byte, len(d.data))
+		copy(b, d.data)
+		sa, ps, pl, err := hc.unpacker.UnpackInPlace(b, d.from, 0, len(b))
+		if err != nil {
+			return "", nil, err
+		}
+		return netip.AddrPortFrom(sa.Addr().Unmap(), sa.Port()).String(), b[ps : ps+pl], nil
+	}
+	return "", nil, errors.New("protocol")
+}
+
+const waitDatagram = 5 * time.Second
+
+func ipNat(a netip.Addr) uint32 { return addrU32(a) }
+
+// pseudo address of a domain target seen INSIDE a packet for an upstream proxy
+func domNat(t int) uint32 { return 4000000000 + uint32(t) }
+
+func (x *relayRun) clientKey(ci int) int {
+	if x.c.Server == "ss2022" {
+		return 1000 + ci // the client session id
+	}
+	return x.clients[ci].sock // NAT relays: the client address
+}
+
+func (x *relayRun) byAddr() bool { return x.c.Server != "ss2022" }
+
+func (x *relayRun) cfgLine(shared bool) string {
+	b := func(v bool) string {
+		if v {
+			return "1"
+		}
+		return "0"
+	}
+	return fmt.Sprintf("cfg 1024 %s %s %s", b(x.byAddr()), b(x.c.Server != "direct"), b(shared))
+}
+
+// observeAtTargets waits for one datagram at a target / upstream socket and classifies it.
+// Returns (target index it is FOR, relay port, payload id, inner-domain flag).
+func (x *relayRun) nextAtTargets() (t int, from netip.AddrPort, plid int, innerDom bool, ok bool) {
+	select {
+	case d := <-x.tg.ch:
+		if x.c.Client == "none" {
+			a, n, err := parseSocksAddr(d.data)
+			if err != nil {
+				x.fail("upstream-unparsable", fmt.Sprintf("datagram at the upstream proxy does not parse: %v", err))
+				return -1, d.from, -1, false, true
+			}
+			t = -1
+			for i := range x.taddrs {
+				if a.port == x.tport && (a.ip == x.taddrs[i] || a.name == tname(i)) {
+					t = i
+				}
+			}
+			return t, d.from, payloadID(d.data[n:]), !a.ip.IsValid(), true
+		}
+		return d.sock, d.from, payloadID(d.data), false, true
+	case <-time.After(waitDatagram):
+		return 0, netip.AddrPort{}, 0, false, false
+	}
+}
+
+func (x *relayRun) opSend(o RelayOp) {
+	hc := x.clients[o.C]
+	ta := x.targetAddr(o.T, o.Dom)
+	t := o.T
+	if x.c.Server == "direct" {
+		t = 0
+	}
+	x.nextPl++
+	pl := x.nextPl
+	x.plTarget[pl], x.plClient[pl] = t, o.C
+	wire, err := x.encode(hc, ta, payloadBytes(pl, x.r))
+	if err != nil {
+		x.fail("harness-encode", err.Error())
+		return
+	}
+	hc.lastPkt = wire
+	key := x.clientKey(o.C)
+	var tl string
+	isDom := !ta.ip.IsValid()
+	if isDom {
+		tl = fmt.Sprintf("dom %d %d %d", t+1, x.tport, pl)
+	} else {
+		tl = fmt.Sprintf("ip %d %d %d", ipNat(ta.ip), x.tport, pl)
+	}
+	x.script = append(x.script, fmt.Sprintf("recv %d %d %s", key, hc.sock, tl))
+	if _, err := x.cg.get(hc.sock).WriteToUDPAddrPort(wire, x.relay.addr); err != nil {
+		x.fail("harness-write", err.Error())
+	}
+	gotT, from, gotPl, innerDom, ok := x.nextAtTargets()
+	if !ok {
+		x.impl = append(x.impl, "lost")
+		x.fail("datagram-lost", fmt.Sprintf("datagram %d from client %d for %s did not arrive within %s", pl, o.C, ta, waitDatagram))
+		return
+	}
+	// oracle: a datagram seen at T carries a payload some client addressed to T
+	if want, known := x.plTarget[gotPl]; !known || want != gotT {
+		x.fail("wrong-destination", fmt.Sprintf("payload %d addressed to target %d (%s) arrived at target %d", gotPl, x.plTarget[gotPl], ta, gotT))
+	}
+	sid, seen := x.portSid[from.Port()]
+	verdict := "old"
+	if !seen {
+		sid = len(x.sidPort)
+		x.portSid[from.Port()] = sid
+		x.sidPort = append(x.sidPort, from.Port())
+		x.sidClient = append(x.sidClient, o.C)
+		x.sidSock = append(x.sidSock, hc.sock)
+		verdict = "new"
+	}
+	x.sidSock[sid] = hc.sock
+	x.impl = append(x.impl, fmt.Sprintf("%s %d 1", verdict, sid))
+	if verdict == "new" {
+		x.script = append(x.script, fmt.Sprintf("initok %d", sid))
+		x.impl = append(x.impl, "ok")
+	}
+	// the model's uplink: for a direct client the resolver's answer; for an upstream proxy the name stays inside
+	ans := "-"
+	obsIP := uint32(0)
+	if gotT >= 0 {
+		obsIP = ipNat(x.taddrs[gotT])
+	}
+	if isDom {
+		if x.c.Client == "direct" {
+			ans = fmt.Sprint(ipNat(x.taddrs[t]))
+		} else {
+			ans = fmt.Sprint(domNat(t))
+			if innerDom && gotT >= 0 {
+				obsIP = domNat(gotT)
+			}
+		}
+	}
+	x.script = append(x.script, fmt.Sprintf("pack %d %s", sid, ans))
+	x.impl = append(x.impl, fmt.Sprintf("sent %d %d %d", obsIP, x.tport, gotPl))
+}
+
+func (x *relayRun) opReply(o RelayOp) {
+	if len(x.sidPort) == 0 {
+		return
+	}
+	sid := o.J % len(x.sidPort)
+	x.nextPl++
+	pl := x.nextPl
+	owner := x.sidClient[sid]
+	data := payloadBytes(pl, x.r)
+	src := netip.AddrPortFrom(x.taddrs[o.T], x.tport)
+	dst := netip.AddrPortFrom(netip.MustParseAddr("127.0.0.1"), x.sidPort[sid])
+	if x.c.Client == "none" {
+		// the upstream proxy answers with the source inside
+		data = append(appendSocksAddr(nil, tAddr{ip: src.Addr(), port: src.Port()}), data...)
+		if _, err := x.tg.get(len(x.taddrs)).WriteToUDPAddrPort(data, dst); err != nil {
+			x.fail("harness-write", err.Error())
+		}
+	} else if _, err := x.tg.get(o.T).WriteToUDPAddrPort(data, dst); err != nil {
+		x.fail("harness-write", err.Error())
+	}
+	x.script = append(x.script, fmt.Sprintf("down %d %d %d %d", sid, ipNat(src.Addr()), src.Port(), pl))
+	select {
+	case d := <-x.cg.ch:
+		// which client owns the socket it arrived at?
+		hc := x.clients[owner]
+		s, payload, err := x.decode(hc, d)
+		if err != nil {
+			x.impl = append(x.impl, "undecodable")
+			x.fail("reply-undecodable", fmt.Sprintf("reply at client socket %d does not decode with the owner's session: %v", d.sock, err))
+			return
+		}
+		// oracle: the reply reaches the client that owns the session, at its latest address, with the true source
+		if d.sock != x.sidSock[sid] {
+			x.fail("reply-to-wrong-address", fmt.Sprintf("reply %d for session %d of client %d arrived at socket %d; the session's latest datagram came from socket %d", pl, sid, owner, d.sock, x.sidSock[sid]))
+		}
+		if payloadID(payload) != pl {
+			x.fail("reply-payload", fmt.Sprintf("reply payload %d, expected %d", payloadID(payload), pl))
+		}
+		want := src.String()
+		if x.c.Server == "direct" {
+			want = "-"
+		}
+		if s != want {
+			x.fail("reply-source", fmt.Sprintf("reply %d names source %s, true source %s", pl, s, want))
+		}
+		srcField := "-"
+		if s != "-" {
+			ap, _ := netip.ParseAddrPort(s)
+			srcField = fmt.Sprintf("%d:%d", ipNat(ap.Addr()), ap.Port())
+		}
+		x.impl = append(x.impl, fmt.Sprintf("reply %d %s %d", d.sock, srcField, payloadID(payload)))
+		x.twoWay[sid] = true
+	case <-time.After(waitDatagram):
+		x.impl = append(x.impl, "lost")
+		x.fail("reply-lost", fmt.Sprintf("reply %d from %s to session %d did not arrive within %s", pl, src, sid, waitDatagram))
+	}
+}
+
+func (x *relayRun) garbageBytes(hc *hClient, kind int) []byte {
+	switch x.c.Server {
+	case "none":
+		switch kind % 4 {
+		case 0:
+			return []byte{}
+		case 1:
+			return append([]byte{9}, x.r.Bytes(20)...) // unknown ATYP
+		case 2:
+			return []byte{3, 200, 'a', 'b'} // domain length beyond the datagram
+		default:
+			return []byte{1, 127, 0}
+		}
+	case "socks5":
+		switch kind % 4 {
+		case 0:
+			return []byte{0, 0}
+		case 1:
+			return append([]byte{0, 0, 1, 1, 127, 0, 0, 20, 0, 53}, x.r.Bytes(8)...) // FRAG != 0
+		case 2:
+			return append([]byte{0, 0, 0, 9}, x.r.Bytes(12)...)
+		default:
+			return []byte{0, 0, 0, 3, 99, 'x'}
+		}
+	case "ss2022":
+		switch kind % 4 {
+		case 0:
+			return x.r.Bytes(x.r.Range(0, 15))
+		case 1:
+			return x.r.Bytes(x.r.Range(16, 200))
+		case 2:
+			if hc.lastPkt != nil { // a genuine packet with one byte flipped
+				b := append([]byte(nil), hc.lastPkt...)
+				b[x.r.Intn(len(b))] ^= 0x40
+				return b
+			}
+			return x.r.Bytes(64)
+		default:
+			if hc.lastPkt != nil { // a replay of a genuine packet
+				return append([]byte(nil), hc.lastPkt...)
+			}
+			return x.r.Bytes(48)
+		}
+	}
+	return nil
+}
+
+func (x *relayRun) opGarbage(o RelayOp) {
+	if x.c.Server == "direct" {
+		return // every datagram is a valid payload for the tunnel
+	}
+	hc := x.clients[o.C]
+	g := x.garbageBytes(hc, o.G)
+	if o.Fresh {
+		// the client moves to a socket the relay has never seen: the garbage is the first thing from that address,
+		// and the client's next genuine datagram comes from there too
+		x.opMove(o)
+	}
+	sock := hc.sock
+	// the key the relay derives: the address (NAT) / whatever session id the bytes decrypt to (ss2022: the
+	// owner's id for a flipped or replayed genuine packet, an unknown one otherwise)
+	key := sock
+	if x.c.Server == "ss2022" {
+		key = 900000 + sock
+		if o.G%4 >= 2 && hc.lastPkt != nil {
+			key = x.clientKey(o.C)
+		}
+	}
+	x.script = append(x.script, fmt.Sprintf("recv %d %d none", key, sock))
+	x.impl = append(x.impl, "noop")
+	if _, err := x.cg.get(sock).WriteToUDPAddrPort(g, x.relay.addr); err != nil {
+		x.fail("harness-write", err.Error())
+	}
+}
+
+func countFDs() int {
+	ents, err := os.ReadDir("/proc/self/fd")
+	if err != nil {
+		return -1
+	}
+	return len(ents)
+}
+
+// opBurst: goroutine and fd counts are unchanged by a burst of garbage (barrier: a valid datagram of an
+// existing session, processed by the same receive loop after the garbage).
+func (x *relayRun) opBurst(o RelayOp) {
+	if x.c.Server == "direct" || len(x.sidPort) == 0 {
+		return
+	}
+	// find a client with an existing session on its current socket: send a barrier first so that it exists
+	x.opSend(RelayOp{Op: "send", C: o.C, T: 0})
+	time.Sleep(20 * time.Millisecond)
+	g0, f0 := runtime.NumGoroutine(), countFDs()
+	hc := x.clients[o.C]
+	fresh, err := x.newClientSocket() // +1 fd, +1 goroutine of the harness itself
+	if err != nil {
+		return
+	}
+	g0, f0 = g0+1, f0+1
+	for i := 0; i < 40; i++ {
+		g := x.garbageBytes(hc, i)
+		sock := hc.sock
+		if i%2 == 1 {
+			sock = fresh
+		}
+		key := sock
+		if x.c.Server == "ss2022" {
+			key = 900000 + sock
+			if i%4 >= 2 && hc.lastPkt != nil {
+				key = x.clientKey(o.C)
+			}
+		}
+		x.script = append(x.script, fmt.Sprintf("recv %d %d none", key, sock))
+		x.impl = append(x.impl, "noop")
+		x.cg.get(sock).WriteToUDPAddrPort(g, x.relay.addr)
+	}
+	x.opSend(RelayOp{Op: "send", C: o.C, T: 0})
+	deadline := time.Now().Add(3 * time.Second)
+	for {
+		g1, f1 := runtime.NumGoroutine(), countFDs()
+		if g1 <= g0 && f1 <= f0 {
+			return
+		}
+		if time.Now().After(deadline) {
+			x.fail("garbage-created-goroutines-or-fds", fmt.Sprintf("after 40 garbage datagrams: goroutines %d -> %d, fds %d -> %d", g0, g1, f0, f1))
+			return
+		}
+		time.Sleep(10 * time.Millisecond)
+	}
+}
+
+func (x *relayRun) opMove(o RelayOp) {
+	s, err := x.newClientSocket()
+	if err != nil {
+		x.fail("harness-socket", err.Error())
+		return
+	}
+	x.clients[o.C].sock = s
+	x.sockOwner[s] = o.C
+}
+
+// drainUnexpected: after the serial script nothing may be left at any socket.
+func (x *relayRun) drainUnexpected() {
+	time.Sleep(50 * time.Millisecond)
+	for {
+		select {
+		case d := <-x.tg.ch:
+			x.fail("unexpected-datagram-at-target", fmt.Sprintf("unsolicited datagram (payload %d) at target socket %d from %s", payloadID(d.data), d.sock, d.from))
+		case d := <-x.cg.ch:
+			x.fail("unexpected-datagram-at-client", fmt.Sprintf("unsolicited datagram (%d bytes) at client socket %d", len(d.data), d.sock))
+		default:
+			return
+		}
+	}
+}
+
+// flood: all clients send concurrently to their own targets (IP and domain) while resolutions are held and
+// released in random order; targets echo. Oracle only (sets): every datagram at T was addressed to T; every reply
+// at a client socket answers one of that client's datagrams and names the target it was sent to.
+func (x *relayRun) flood() (sent, arrived, echoed int) {
+	n := x.c.Flood
+	if n == 0 || x.c.Server == "direct" {
+		return
+	}
+	x.dns.setHoldAll(x.c.Client == "direct")
+	stopRel := make(chan struct{})
+	var relWG sync.WaitGroup
+	relWG.Go(func() {
+		rr := x.r.Fork(77)
+		var held []string
+		for {
+			select {
+			case name := <-x.dns.arrived:
+				held = append(held, name)
+				if len(held) < 2 && rr.Chance(1, 2) {
+					continue
+				}
+			case <-stopRel:
+				x.dns.setHoldAll(false)
+				x.dns.releaseAll()
+				return
+			case <-time.After(5 * time.Millisecond):
+			}
+			if len(held) > 0 {
+				i := rr.Intn(len(held))
+				x.dns.release(held[i], dnsAnswer{ip: x.dns.static[held[i]]})
+				held = append(held[:i], held[i+1:]...)
+			}
+		}
+	})
+	base := x.nextPl + 1
+	type fl struct{ client, target int }
+	info := map[int]fl{}
+	var wires [][]byte
+	var socks []int
+	for i := 0; i < n; i++ {
+		for ci, hc := range x.clients {
+			t := ci % len(x.taddrs)
+			x.nextPl++
+			info[x.nextPl] = fl{ci, t}
+			w, err := x.encode(hc, x.targetAddr(t, i%2 == 0), payloadBytes(x.nextPl, x.r))
+			if err != nil {
+				continue
+			}
+			wires = append(wires, w)
+			socks = append(socks, hc.sock)
+		}
+	}
+	for i, w := range wires {
+		x.cg.get(socks[i]).WriteToUDPAddrPort(w, x.relay.addr)
+		sent++
+		if i%16 == 15 {
+			time.Sleep(200 * time.Microsecond)
+		}
+	}
+	// collect until quiet
+	quiet := time.NewTimer(400 * time.Millisecond)
+	hard := time.After(6 * time.Second)
+	up := len(x.taddrs)
+loop:
+	for {
+		select {
+		case d := <-x.tg.ch:
+			quiet.Reset(400 * time.Millisecond)
+			var t, pl int
+			var echo []byte
+			if x.c.Client == "none" {
+				a, k, err := parseSocksAddr(d.data)
+				if err != nil {
+					x.fail("upstream-unparsable", err.Error())
+					continue
+				}
+				t = -1
+				for i := range x.taddrs {
+					if a.port == x.tport && (a.ip == x.taddrs[i] || a.name == tname(i)) {
+						t = i
+					}
+				}
+				pl = payloadID(d.data[k:])
+				if t >= 0 {
+					echo = append(appendSocksAddr(nil, tAddr{ip: x.taddrs[t], port: x.tport}), d.data[k:]...)
+				}
+			} else {
+				t, pl, echo = d.sock, payloadID(d.data), d.data
+			}
+			f, ok := info[pl]
+			if !ok || pl < base {
+				x.fail("flood-unknown-payload", fmt.Sprintf("datagram with unknown payload %d at target %d", pl, t))
+				continue
+			}
+			arrived++
+			if f.target != t {
+				x.fail("wrong-destination", fmt.Sprintf("under concurrency: payload %d of client %d addressed to target %d arrived at target %d", pl, f.client, f.target, t))
+				continue
+			}
+			if x.c.Client == "none" {
+				x.tg.get(up).WriteToUDPAddrPort(echo, d.from)
+			} else {
+				x.tg.get(t).WriteToUDPAddrPort(echo, d.from)
+			}
+		case d := <-x.cg.ch:
+			quiet.Reset(400 * time.Millisecond)
+			// the socket's owner
+			owner, known := x.sockOwner[d.sock]
+			if !known || x.clients[owner].sock != d.sock {
+				// in the flood every client sends from its current socket only
+				x.fail("reply-to-wrong-address", fmt.Sprintf("under concurrency: reply at socket %d, which is not the address any flooding client sends from", d.sock))
+				continue
+			}
+			s, payload, err := x.decode(x.clients[owner], d)
+			if err != nil {
+				x.fail("reply-undecodable", fmt.Sprintf("under concurrency: reply at client %d does not decode: %v", owner, err))
+				continue
+			}
+			f, ok := info[payloadID(payload)]
+			if !ok || f.client != owner {
+				x.fail("reply-to-wrong-client", fmt.Sprintf("under concurrency: client %d received the echo of payload %d, which client %d sent", owner, payloadID(payload), f.client))
+				continue
+			}
+			if want := netip.AddrPortFrom(x.taddrs[f.target], x.tport).String(); s != want {
+				x.fail("reply-source", fmt.Sprintf("under concurrency: echo of payload %d names source %s, true source %s", payloadID(payload), s, want))
+			}
+			echoed++
+		case <-quiet.C:
+			break loop
+		case <-hard:
+			break loop
+		}
+	}
+	close(stopRel)
+	relWG.Wait()
+	return
+}
+
+type relayResult struct {
+	script, impl []string
+	fails        []common.OracleFailure
+	sessions     int
+	twoWay       int
+	floodSent    int
+	floodArrived int
+	floodEchoed  int
+}
+
+func runRelayCase(c RelayCase, dns *scriptDNS, shared bool) (res relayResult, err error) {
+	x := &relayRun{c: c, r: common.NewRng(c.Seed), dns: dns}
+	dns.setHoldAll(false)
+	defer func() {
+		x.teardown()
+		res.script, res.impl, res.fails = x.script, x.impl, x.fails
+		res.sessions, res.twoWay = len(x.sidPort), len(x.twoWay)
+	}()
+	if err = x.setup(); err != nil {
+		return
+	}
+	x.script = append(x.script, x.cfgLine(shared))
+	x.impl = append(x.impl, "ok")
+	for _, o := range c.Ops {
+		if o.C < 0 || o.C >= len(x.clients) || o.T < 0 || o.T >= len(x.taddrs) {
+			continue
+		}
+		switch o.Op {
+		case "send":
+			x.opSend(o)
+		case "reply":
+			x.opReply(o)
+		case "garbage":
+			x.opGarbage(o)
+		case "move":
+			x.opMove(o)
+		case "burst":
+			x.opBurst(o)
+		}
+	}
+	// barrier + quiescence: nothing unsolicited anywhere
+	if len(c.Ops) > 0 {
+		x.opSend(RelayOp{Op: "send", C: 0, T: 0})
+	}
+	x.drainUnexpected()
+	res.floodSent, res.floodArrived, res.floodEchoed = x.flood()
+	return
 }
 
 func evalRelay(cases []RelayCase, dns *scriptDNS, shared bool, o *common.Options, rep *common.Report) error {
+	for _, c := range cases {
+		res, err := runRelayCase(c, dns, shared)
+		if err != nil {
+			return fmt.Errorf("udprelay %s>%s/%s: %w", c.Server, c.Client, c.Batch, err)
+		}
+		rep.Case(relaySig(c), res.twoWay >= 2)
+		rep.Count(fmt.Sprintf("udprelay:%s>%s/%s", c.Server, c.Client, c.Batch))
+		if c.Flood > 0 && c.Server != "direct" {
+			rep.Count("udprelay:flood-runs")
+			rep.Distribution["udprelay:flood-sent"] += res.floodSent
+			rep.Distribution["udprelay:flood-arrived"] += res.floodArrived
+			rep.Distribution["udprelay:flood-echoed"] += res.floodEchoed
+		}
+		rep.Sample(map[string]any{"case": fmt.Sprintf("%s>%s/%s %d ops", c.Server, c.Client, c.Batch, len(c.Ops)), "impl": strings.Join(res.impl, " | ")})
+		for _, f := range res.fails {
+			rep.Fail(f)
+		}
+		if o.Driver != "" {
+			model, err := common.RunDriverOnce(o.Driver, res.script)
+			if err != nil {
+				return err
+			}
+			if strings.Join(model, "\n") != strings.Join(res.impl, "\n") {
+				rep.Diverge(common.Divergence{Engine: "udprelay", Case: c, Impl: res.impl, Model: model, Note: strings.Join(res.script, " ; ")})
+			}
+			rep.TracesValidated++
+		}
+	}
 	return nil
 }
 
 func relayEngine(r *common.Rng, dns *scriptDNS, shared bool, o *common.Options, rep *common.Report) error {
+	n := o.Budget(24, 480)
+	t0 := time.Now()
+	limit := 45 * time.Second
+	if o.Thorough() {
+		limit = 11 * time.Minute
+	}
+	if o.Search {
+		limit = 3 * time.Minute
+	}
+	for i := 0; i < n; i++ {
+		if time.Since(t0) > limit {
+			rep.Note("udprelay: time budget reached after %d of %d runs", i, n)
+			break
+		}
+		if err := evalRelay([]RelayCase{genRelayCase(r.Fork(uint64(i)), i)}, dns, shared, o, rep); err != nil {
+			return err
+		}
+	}
 	return nil
 }
